@@ -22,7 +22,7 @@ Definition of_truth (r : res truth) : cout :=
   end.
 Definition of_budget (r : res budget) : cout :=
   match r with
-  | ROk b => COk (budget_values b) [budget_p b; budget_d b; budget_q b]
+  | ROk b => COk (budget_values b) [budget_p b; budget_d b; budget_q b; ROk (if budget_is_empty b then 1 else 0)]   (* Budget::is_empty as 0/1 *)
   | RErr => CErr
   | RPanic => CPanic
   end.
